@@ -154,7 +154,7 @@ OVERRIDES = [
     (r'^c29_unitless_(accepts|rejects)_', dict(bounded='four concrete units (none, %, fr, px), one harness each', functions=['math::unitless (argument check of pow / sqrt / log / exp)'])),
     (r'^c29_min_max_', dict(bounded='three / two concrete arguments (90px, 1in, 95px; 2, 3; 1px, 1s)')),
     (r'^c36_(expanded|compressed)_', dict(bounded=None, functions=['output::transform::handle_item (Item::Comment arm; extracted range)'])),
-    (r'^c16_(media|atrule|keyframes|for|while|each)_', dict(functions=['output::transform::handle_item (arms Item::AtMedia, Item::AtRule, Item::For, Item::While, Item::Each; extracted ranges run against recording stand-ins for ScopeRef / handle_body / check_body)'],
+    (r'^c16_(rule|media|atrule|keyframes|for|while|each)_', dict(functions=['output::transform::handle_item (arms Item::Rule, Item::AtMedia, Item::AtRule, Item::For, Item::While, Item::Each; extracted ranges run against recording stand-ins for ScopeRef / handle_body / check_body)'],
         bounded='two loop values / two truthy conditions; which scope each statement uses is independent of the values')),
     (r'^c16_each_save_and_restore', dict(functions=['Scope::store_local_values', 'Scope::restore_local_values', 'Scope::get_local_or_none (complete bodies, extracted; variable table instantiated at a four-slot u8 table)'],
         bounded='three names, one enclosing scope; values symbolic')),
